@@ -200,7 +200,7 @@ theorem deliver_moves_guarded (P : Params) (o : Oracle) (s : State) (b : Nat) (t
   · cases h; rfl
   · rcases deliverBody_shape P o s b t out h with hr | ⟨r, hs⟩
     · exact hr.2.2
-    · obtain ⟨burn, _, _, _, hm, hg⟩ := successOutcome_ok s t r out hs
+    · obtain ⟨burn, _, _, _, hm, hg, _⟩ := successOutcome_ok s t r out hs
       rw [hm]; exact hg
 
 /-- **C05 (balances).** A delivered transaction — accepted or rejected — never lowers the balance, in any coin, of an
@@ -232,5 +232,276 @@ theorem C05_moves_need_authorization (P : Params) (o : Oracle) (s : State) (b : 
   · next hp =>
     have := prologue_none P s b t hp
     exact ⟨this.2.2.1, this.2.2.2.2⟩
+
+end Minter
+
+/-! ### Stakes, pending updates, waitlist entries, frozen funds and order escrows are reduced only by their owner -/
+namespace Minter
+
+/-- What `x` holds outside its balance, per kind. -/
+def stakeOfOwner (x : Addr) (c : Coin) (st : Stake) : Int := if st.owner = x ∧ st.coin = c then st.value else 0
+def ownStake (s : State) (x : Addr) (c : Coin) : Int :=
+  sumBy (fun cd => sumBy (stakeOfOwner x c) cd.stakes + sumBy (stakeOfOwner x c) cd.updates) s.candidates
+def ownWait (s : State) (x : Addr) (c : Coin) : Int := sumBy (fun w => if w.owner = x ∧ w.coin = c then w.value else 0) s.waitlist
+def ownFrozen (s : State) (x : Addr) (c : Coin) : Int := sumBy (fun f => if f.addr = x ∧ f.coin = c then f.value else 0) s.frozen
+def ownEscrow (s : State) (x : Addr) (c : Coin) : Int := sumBy (fun o => if o.owner = x then orderEscrow c o else 0) s.orders
+
+/-- Declared effect of a primitive on those holdings of `x`. -/
+def Prim.dStake (x : Addr) (c : Coin) : Prim → Int
+  | .addStake _ owner coin v => if owner = x ∧ coin = c then v else 0
+  | .newStake _ st => stakeOfOwner x c st
+  | .delStake _ st => - stakeOfOwner x c st
+  | .pushUpdate _ st => stakeOfOwner x c st
+  | _ => 0
+def Prim.dWait (x : Addr) (c : Coin) : Prim → Int
+  | .addWait w => if w.owner = x ∧ w.coin = c then w.value else 0
+  | .delWait w => - (if w.owner = x ∧ w.coin = c then w.value else 0)
+  | _ => 0
+def Prim.dFrozen (x : Addr) (c : Coin) : Prim → Int
+  | .addFrozen f => if f.addr = x ∧ f.coin = c then f.value else 0
+  | .delFrozen f => - (if f.addr = x ∧ f.coin = c then f.value else 0)
+  | _ => 0
+def Prim.dEscrow (x : Addr) (c : Coin) : Prim → Int
+  | .addOrder o => if o.owner = x then orderEscrow c o else 0
+  | .delOrder o => - (if o.owner = x then orderEscrow c o else 0)
+  | .fillOrder o d0 d1 => - (if o.owner = x then (if o.isSale then (if o.c1 = c then d1 else 0) else (if o.c0 = c then d0 else 0)) else 0)
+  | _ => 0
+
+theorem ownStake_updDelta (x : Addr) (c : Coin) (owner : Addr) (coin : Coin) (v : Int) (l : List Stake)
+    (h : l.any (stakeKey owner coin) = true) :
+    updDelta (stakeOfOwner x c) (stakeKey owner coin) (fun st => { st with value := st.value + v }) l
+      = if owner = x ∧ coin = c then v else 0 := by
+  unfold updDelta
+  obtain ⟨st, hf⟩ := findFirst_isSome_of_any _ _ h
+  have hp := findFirst_some _ _ _ hf
+  simp only [stakeKey, Bool.and_eq_true, beq_iff_eq] at hp
+  rw [hf]
+  simp only [stakeOfOwner, hp.1, hp.2]
+  split <;> omega
+
+theorem apply_ownStake (s : State) (p : Prim) (x : Addr) (c : Coin) (hok : p.ok s = true) :
+    ownStake (p.apply s) x c = ownStake s x c + p.dStake x c := by
+  cases p with
+  | addStake cand owner coin v =>
+    simp only [Prim.ok, getCand] at hok
+    cases hf : findFirst (fun y => y.id == cand) s.candidates with
+    | none => simp [hf] at hok
+    | some cd =>
+      simp only [hf] at hok
+      simp only [Prim.apply, ownStake, Prim.dStake, sumBy_updFirst]
+      unfold updDelta
+      rw [hf]
+      simp only [sumBy_updFirst, ownStake_updDelta x c owner coin v cd.stakes hok]
+      split <;> omega
+  | newStake cand st =>
+    simp only [Prim.ok] at hok
+    obtain ⟨cd, hf⟩ := findFirst_isSome_of_any _ _ hok
+    simp only [Prim.apply, ownStake, Prim.dStake, sumBy_updFirst, updDelta, hf, sumBy_append, sumBy_single]
+    omega
+  | delStake cand st =>
+    simp only [Prim.ok, getCand] at hok
+    cases hf : findFirst (fun y => y.id == cand) s.candidates with
+    | none => simp [hf] at hok
+    | some cd =>
+      simp only [hf, decide_eq_true_eq] at hok
+      simp only [Prim.apply, ownStake, Prim.dStake, sumBy_updFirst, updDelta, hf, sumBy_eraseFirst, hok]
+      omega
+  | pushUpdate cand st =>
+    simp only [Prim.ok] at hok
+    obtain ⟨cd, hf⟩ := findFirst_isSome_of_any _ _ hok
+    simp only [Prim.apply, ownStake, Prim.dStake, sumBy_updFirst, updDelta, hf, sumBy_append, sumBy_single]
+    omega
+  | addCandidate cd => simp [Prim.apply, ownStake, Prim.dStake, sumBy_append, sumBy_single, sumBy]
+  | setCandStatus id st =>
+    simp only [Prim.apply, ownStake, Prim.dStake]
+    rw [sumBy_updFirst_inv _ _ _ _ (by intro y; rfl)]; omega
+  | editCandidate id ow rw ct =>
+    simp only [Prim.apply, ownStake, Prim.dStake]
+    rw [sumBy_updFirst_inv _ _ _ _ (by intro y; rfl)]; omega
+  | setCandPubKey id old new =>
+    simp only [Prim.apply, ownStake, Prim.dStake]
+    rw [sumBy_updFirst_inv _ _ _ _ (by intro y; rfl)]; omega
+  | setCandCommission id cm h =>
+    simp only [Prim.apply, ownStake, Prim.dStake]
+    rw [sumBy_updFirst_inv _ _ _ _ (by intro y; rfl)]; omega
+  | _ => simp [Prim.apply, ownStake, Prim.dStake]
+
+theorem apply_ownWait (s : State) (p : Prim) (x : Addr) (c : Coin) (hok : p.ok s = true) :
+    ownWait (p.apply s) x c = ownWait s x c + p.dWait x c := by
+  cases p with
+  | addWait w => simp only [Prim.apply, ownWait, Prim.dWait, sumBy_append, sumBy_single]
+  | delWait w =>
+    simp only [Prim.ok, decide_eq_true_eq] at hok
+    simp only [Prim.apply, ownWait, Prim.dWait, sumBy_eraseFirst, hok]
+    omega
+  | _ => simp [Prim.apply, ownWait, Prim.dWait]
+
+theorem apply_ownFrozen (s : State) (p : Prim) (x : Addr) (c : Coin) (hok : p.ok s = true) :
+    ownFrozen (p.apply s) x c = ownFrozen s x c + p.dFrozen x c := by
+  cases p with
+  | addFrozen f => simp only [Prim.apply, ownFrozen, Prim.dFrozen, sumBy_append, sumBy_single]
+  | delFrozen f =>
+    simp only [Prim.ok, decide_eq_true_eq] at hok
+    simp only [Prim.apply, ownFrozen, Prim.dFrozen, sumBy_eraseFirst, hok]
+    omega
+  | _ => simp [Prim.apply, ownFrozen, Prim.dFrozen]
+
+theorem apply_ownEscrow (s : State) (p : Prim) (x : Addr) (c : Coin) (hok : p.ok s = true) :
+    ownEscrow (p.apply s) x c = ownEscrow s x c + p.dEscrow x c := by
+  cases p with
+  | addOrder o => simp only [Prim.apply, ownEscrow, Prim.dEscrow, sumBy_append, sumBy_single]
+  | delOrder o =>
+    simp only [Prim.ok, decide_eq_true_eq] at hok
+    simp only [Prim.apply, ownEscrow, Prim.dEscrow, sumBy_eraseFirst, hok]
+    omega
+  | fillOrder o d0 d1 =>
+    simp only [Prim.ok, decide_eq_true_eq] at hok
+    simp only [Prim.apply, ownEscrow, Prim.dEscrow, sumBy_updFirst, updDelta, hok, orderEscrow]
+    split <;> (try split) <;> (try split) <;> omega
+  | _ => simp [Prim.apply, ownEscrow, Prim.dEscrow]
+
+/-- Generic monotonicity of a holding with declared effects along a checked plan. -/
+theorem checked_mono (f : State → Int) (d : Prim → Int) (hap : ∀ s p, p.ok s = true → f (p.apply s) = f s + d p)
+    (s s' : State) (ps : List Prim) (hd : ∀ p ∈ ps, 0 ≤ d p) (h : applyChecked s ps = some s') : f s ≤ f s' := by
+  induction ps generalizing s with
+  | nil => simp [applyChecked] at h; subst h; exact Int.le_refl _
+  | cons p t ih =>
+    obtain ⟨hok, ht⟩ := applyChecked_cons _ _ _ _ h
+    have h1 := ih _ (fun q hq => hd q (List.mem_cons_of_mem _ hq)) ht
+    have h2 := hap s p hok
+    have h3 := hd p (List.mem_cons_self ..)
+    omega
+
+/-- A move that passes the debit guard for `sender` does not lower any non-balance holding of anybody else. -/
+theorem move_holdings_guard (m : Move) (sender : Addr) (issuer : Option Addr) (x : Addr) (c : Coin)
+    (hg : m.debitOk sender issuer = true) (hx : x ≠ sender) :
+    ∀ p ∈ m.prims, 0 ≤ p.dStake x c ∧ 0 ≤ p.dWait x c ∧ 0 ≤ p.dFrozen x c ∧ 0 ≤ p.dEscrow x c := by
+  intro p hp
+  have triv : ∀ q : Prim, (q.dStake x c = 0 ∧ q.dWait x c = 0 ∧ q.dFrozen x c = 0 ∧ q.dEscrow x c = 0) →
+      0 ≤ q.dStake x c ∧ 0 ≤ q.dWait x c ∧ 0 ≤ q.dFrozen x c ∧ 0 ≤ q.dEscrow x c := by
+    intro q ⟨a, b, c', d⟩; omega
+  cases m with
+  | transfer a b c' v =>
+    simp only [Move.prims, List.mem_cons, List.mem_nil_iff, or_false] at hp
+    rcases hp with e | e <;> subst e <;> exact triv _ ⟨rfl, rfl, rfl, rfl⟩
+  | mint a c' v =>
+    simp only [Move.prims] at hp; split at hp
+    · cases hp
+    · simp only [List.mem_cons, List.mem_nil_iff, or_false] at hp
+      rcases hp with e | e <;> subst e <;> exact triv _ ⟨rfl, rfl, rfl, rfl⟩
+  | feeBase payer v =>
+    simp only [Move.prims, List.mem_cons, List.mem_nil_iff, or_false] at hp
+    rcases hp with e | e <;> subst e <;> exact triv _ ⟨rfl, rfl, rfl, rfl⟩
+  | feeBancor payer c' commission inBase =>
+    simp only [Move.prims] at hp; split at hp
+    · cases hp
+    · simp only [List.mem_cons, List.mem_nil_iff, or_false] at hp
+      rcases hp with e | e | e | e <;> subst e <;> exact triv _ ⟨rfl, rfl, rfl, rfl⟩
+  | poolSell payer c0 c1 sellsC0 net out burn toRewards dest =>
+    cases sellsC0 <;> cases toRewards <;> simp only [Move.prims, Bool.false_eq_true, if_false, if_true] at hp
+    all_goals first
+      | (split at hp
+         · simp only [List.mem_cons, List.mem_nil_iff, or_false] at hp
+           rcases hp with e | e | e | e <;> subst e <;> exact triv _ ⟨rfl, rfl, rfl, rfl⟩
+         · cases hp)
+      | (simp only [List.mem_cons, List.mem_nil_iff, or_false] at hp
+         rcases hp with e | e | e | e <;> subst e <;> exact triv _ ⟨rfl, rfl, rfl, rfl⟩)
+  | createCoin owner ci =>
+    simp only [Move.prims] at hp; split at hp
+    · cases hp
+    · simp only [List.mem_cons, List.mem_nil_iff, or_false] at hp
+      rcases hp with e | e | e <;> subst e <;> exact triv _ ⟨rfl, rfl, rfl, rfl⟩
+  | burnTicker v =>
+    simp only [Move.prims, List.mem_cons, List.mem_nil_iff, or_false] at hp
+    rcases hp with e | e <;> subst e <;> exact triv _ ⟨rfl, rfl, rfl, rfl⟩
+  | admin q =>
+    simp only [Move.prims] at hp; split at hp
+    · next ha =>
+      simp only [List.mem_singleton] at hp; subst hp
+      cases p <;> simp [Prim.isAdmin] at ha <;> exact triv _ ⟨rfl, rfl, rfl, rfl⟩
+    · cases hp
+  | bancor a sell sellAmt buy buyAmt bip =>
+    simp only [Move.prims, List.mem_append] at hp
+    rcases hp with hp | hp <;> split at hp
+    · rw [List.mem_singleton] at hp; subst hp; exact triv _ ⟨rfl, rfl, rfl, rfl⟩
+    · simp only [List.mem_cons, List.mem_nil_iff, or_false] at hp; rcases hp with e | e | e <;> subst e <;> exact triv _ ⟨rfl, rfl, rfl, rfl⟩
+    · rw [List.mem_singleton] at hp; subst hp; exact triv _ ⟨rfl, rfl, rfl, rfl⟩
+    · simp only [List.mem_cons, List.mem_nil_iff, or_false] at hp; rcases hp with e | e | e <;> subst e <;> exact triv _ ⟨rfl, rfl, rfl, rfl⟩
+  | delegate a cand coin value wl =>
+    simp only [Move.debitOk, beq_iff_eq] at hg
+    have hax : ¬ (a = x) := fun e => hx (e ▸ hg)
+    cases wl <;> simp only [Move.prims, List.mem_cons, List.mem_nil_iff, or_false] at hp
+    · rcases hp with e | e <;> subst e <;> simp [Prim.dStake, Prim.dWait, Prim.dFrozen, Prim.dEscrow, stakeOfOwner, hax]
+    · rcases hp with e | e | e <;> subst e <;> simp [Prim.dStake, Prim.dWait, Prim.dFrozen, Prim.dEscrow, stakeOfOwner, hax]
+  | unbond a stakeCand coin value wl f =>
+    simp only [Move.debitOk, beq_iff_eq] at hg
+    have hax : ¬ (a = x) := fun e => hx (e ▸ hg)
+    cases wl with
+    | none =>
+      simp only [Move.prims, List.mem_cons, List.mem_nil_iff, or_false] at hp
+      rcases hp with e | e <;> subst e <;> simp [Prim.dStake, Prim.dWait, Prim.dFrozen, Prim.dEscrow, hax]
+    | some w =>
+      simp only [Move.prims] at hp
+      split at hp
+      · simp only [List.mem_cons, List.mem_nil_iff, or_false] at hp
+        rcases hp with e | e | e <;> subst e <;> simp [Prim.dStake, Prim.dWait, Prim.dFrozen, Prim.dEscrow, hax]
+      · split at hp
+        · simp only [List.mem_cons, List.mem_nil_iff, or_false] at hp
+          rcases hp with e | e | e <;> subst e <;> simp [Prim.dStake, Prim.dWait, Prim.dFrozen, Prim.dEscrow, hax]
+        · simp only [List.mem_cons, List.mem_nil_iff, or_false] at hp
+          rcases hp with e | e <;> subst e <;> simp [Prim.dStake, Prim.dWait, Prim.dFrozen, Prim.dEscrow, hax]
+  | lock a f =>
+    simp only [Move.debitOk, Bool.and_eq_true, beq_iff_eq, decide_eq_true_eq] at hg
+    have hax : ¬ (a = x) := fun e => hx (e ▸ hg.1)
+    simp only [Move.prims, List.mem_cons, List.mem_nil_iff, or_false] at hp
+    rcases hp with e | e <;> subst e <;> simp [Prim.dStake, Prim.dWait, Prim.dFrozen, Prim.dEscrow, hax]
+  | declare a cd coin stake =>
+    simp only [Move.debitOk, beq_iff_eq] at hg
+    have hax : ¬ (a = x) := fun e => hx (e ▸ hg)
+    simp only [Move.prims, List.mem_cons, List.mem_nil_iff, or_false] at hp
+    rcases hp with e | e | e <;> subst e <;> simp [Prim.dStake, Prim.dWait, Prim.dFrozen, Prim.dEscrow, stakeOfOwner, hax]
+  | poolCreate a pl lp =>
+    simp only [Move.prims] at hp; split at hp
+    · cases hp
+    · simp only [List.mem_cons, List.mem_nil_iff, or_false] at hp
+      rcases hp with e | e | e | e | e | e <;> subst e <;> exact triv _ ⟨rfl, rfl, rfl, rfl⟩
+  | poolMint a c0 c1 a0 a1 lp liq =>
+    simp only [Move.prims] at hp; split at hp
+    · cases hp
+    · simp only [List.mem_cons, List.mem_nil_iff, or_false] at hp
+      rcases hp with e | e | e | e | e <;> subst e <;> exact triv _ ⟨rfl, rfl, rfl, rfl⟩
+  | poolBurn a c0 c1 a0 a1 lp liq =>
+    simp only [Move.prims] at hp; split at hp
+    · cases hp
+    · simp only [List.mem_cons, List.mem_nil_iff, or_false] at hp
+      rcases hp with e | e | e | e | e <;> subst e <;> exact triv _ ⟨rfl, rfl, rfl, rfl⟩
+  | orderAdd a o =>
+    simp only [Move.debitOk, Bool.and_eq_true, beq_iff_eq] at hg
+    have hox : ¬ (o.owner = x) := fun e => hx (e ▸ hg.2)
+    simp only [Move.prims, List.mem_cons, List.mem_nil_iff, or_false] at hp
+    rcases hp with e | e <;> subst e <;> simp [Prim.dStake, Prim.dWait, Prim.dFrozen, Prim.dEscrow, hox]
+  | orderRemove a o =>
+    simp only [Move.debitOk, Bool.and_eq_true, beq_iff_eq] at hg
+    have hox : ¬ (o.owner = x) := fun e => hx (e ▸ hg.2)
+    simp only [Move.prims, List.mem_cons, List.mem_nil_iff, or_false] at hp
+    rcases hp with e | e <;> subst e <;> simp [Prim.dStake, Prim.dWait, Prim.dFrozen, Prim.dEscrow, hox]
+
+/-- **C05 (stakes, waitlist, frozen funds, orders).** A delivered transaction — accepted or rejected — never lowers what anybody
+    other than its sender has staked (stakes + pending updates), waitlisted, frozen or escrowed in limit orders, in any coin. -/
+theorem C05_holdings_only_sender (P : Params) (o : Oracle) (s s' : State) (b : Nat) (t : TxIn) (out : Outcome)
+    (h : deliverTx P o s b t = .ok out) (ha : applyChecked s out.plan = some s')
+    (x : Addr) (hx : x ≠ t.sender) (c : Coin) :
+    ownStake s x c ≤ ownStake s' x c ∧ ownWait s x c ≤ ownWait s' x c ∧
+    ownFrozen s x c ≤ ownFrozen s' x c ∧ ownEscrow s x c ≤ ownEscrow s' x c := by
+  have hg := deliver_moves_guarded P o s b t out h
+  have hall : ∀ p ∈ out.plan, 0 ≤ p.dStake x c ∧ 0 ≤ p.dWait x c ∧ 0 ≤ p.dFrozen x c ∧ 0 ≤ p.dEscrow x c := by
+    intro p hp
+    simp only [Outcome.plan, planOf, List.mem_flatMap] at hp
+    obtain ⟨m, hm, hpm⟩ := hp
+    exact move_holdings_guard m t.sender t.issuer x c (List.all_eq_true.mp hg m hm) hx p hpm
+  exact ⟨checked_mono (fun s => ownStake s x c) (Prim.dStake x c) (fun s p hok => apply_ownStake s p x c hok) s s' out.plan (fun p hp => (hall p hp).1) ha,
+         checked_mono (fun s => ownWait s x c) (Prim.dWait x c) (fun s p hok => apply_ownWait s p x c hok) s s' out.plan (fun p hp => (hall p hp).2.1) ha,
+         checked_mono (fun s => ownFrozen s x c) (Prim.dFrozen x c) (fun s p hok => apply_ownFrozen s p x c hok) s s' out.plan (fun p hp => (hall p hp).2.2.1) ha,
+         checked_mono (fun s => ownEscrow s x c) (Prim.dEscrow x c) (fun s p hok => apply_ownEscrow s p x c hok) s s' out.plan (fun p hp => (hall p hp).2.2.2) ha⟩
 
 end Minter
